@@ -15,6 +15,11 @@ structure St where
   /-- run `poolclock`: the Dandelion configuration and the current epoch (`Model/PoolTime.lean`) -/
   dcfg : DCfg := {}
   tep : TEpoch := {}
+  /-- run `poolrelay`: the peer objects and the epoch's current relay (by id) -/
+  rpeers : List RPeer := []
+  rcur : Option Nat := none
+  /-- the transaction the model's last submission / eviction removed from the txpool (`evicted` lines) -/
+  lastEvicted : Option Tx := none
 
 def stripPfx (s : String) (n : Nat) : String := (s.drop n).toString
 
@@ -171,7 +176,11 @@ def handle (st : St) (args : List String) (impl : String) : St × Verdict :=
       match subTxOf st.ctx tx ((kv rest "form").getD "v3") with
       | some sub =>
         let (p, r) := st.pool.submit st.ctx src sub (stem == "1") (stemOk == "1")
-        ({ st with pool := p }, cmpSubmit (showRes r) impl)
+        -- the victim of an eviction at capacity: the same submission without a capacity limit keeps it
+        let big : Ctx := { st.ctx with cfg := { st.ctx.cfg with maxPool := 1000000000 } }
+        let (q, _) := st.pool.submit big src sub (stem == "1") (stemOk == "1")
+        let victim := if p.txpool.length < q.txpool.length then q.txpool.txs.find? (fun t => !p.txpool.txs.contains t) else none
+        ({ st with pool := p, lastEvicted := victim }, cmpSubmit (showRes r) impl)
       | none => (st, .unknown)
     | _, _, _, _ => (st, .unknown)
   | ["obs"] => (st, cmpModel (showObs st) impl)
@@ -247,11 +256,46 @@ def handle (st : St) (args : List String) (impl : String) : St × Verdict :=
       | some txs => s!"{showList (txs.map txSig)}:ok"
       | none => s!"{showList ((st.pool.blockTxs st.ctx).map txSig)}:rejected"
     (st, cmpModel m impl)
-  | ["evict"] => ({ st with pool := st.pool.evictFromTxpool st.ctx }, cmpModel "ok" impl)
+  | ["evict"] =>
+    ({ st with pool := st.pool.evictFromTxpool st.ctx, lastEvicted := st.pool.txpool.evictee st.ctx }, cmpModel "ok" impl)
+  | ["evicted"] =>
+    -- WHICH transaction the eviction removed: the last one of the `Weighting::NoLimit` bucket order
+    -- (`Pool.evictee`; `evict_keeps_joint_validity_iff` says when that keeps the pool jointly valid).
+    -- The choice is what the property's finding is about: a different victim is a failing input.
+    let m := match st.lastEvicted with | some t => txSig t | none => "none"
+    (st, if m = impl then .ok else .fail m)
   | ["truncate_cache", n] =>
     match n.toNat? with
     | some n => ({ st with pool := st.pool.truncateCache n }, cmpModel "ok" impl)
     | none => (st, .unknown)
+  -- the Dandelion relay peer (Model/PoolTime.lean, `relayPeer` / `stemTxAcceptedR`)
+  | "rworld" :: rest =>
+    let parseP (it : String) : Option RPeer :=
+      match it.splitOn ":" with
+      | [i, b, a, o, m] => i.toNat?.map fun id =>
+          { id, banned := b == "1", alive := a == "1", outbound := o == "1", member := m == "1" }
+      | _ => none
+    match (kv rest "peers").bind (fun s => (listItems s).mapM parseP) with
+    | some ps => ({ st with rpeers := ps }, .ok)
+    | none => (st, .unknown)
+  | "rpush" :: t :: rest =>
+    -- `add_to_pool` with the real net adapter and real peers: whether the relay takes the stem
+    -- transaction is computed from the peer objects; the epoch's relay moves iff the relay step ran
+    match (idOf t).bind (fun i => st.txs.find? (·.1 == i)), (kv rest "src").bind parseSrc, kv rest "stem",
+          kv rest "stemepoch", kv rest "always" with
+    | some (_, tx), some src, some stem, some se, some al =>
+      match subTxOf st.ctx tx ((kv rest "form").getD "v3") with
+      | some sub =>
+        let (acc, cur') := stemTxAcceptedR (se == "1") (al == "1") src st.rcur st.rpeers 0
+        let (p, r) := st.pool.submit st.ctx src sub (stem == "1") acc
+        let (p', r') := st.pool.submit st.ctx src sub (stem == "1") (!acc)
+        let reached := p != p' || r != r'
+        ({ st with pool := p, rcur := if reached then cur' else st.rcur }, cmpSubmit (showRes r) impl)
+      | none => (st, .unknown)
+    | _, _, _, _, _ => (st, .unknown)
+  | ["rcur"] =>
+    -- which peer received the last stem transaction (observed on the sockets of the fake peers)
+    (st, cmpModel (match st.rcur with | some i => s!"p{i}" | none => "none") impl)
   -- the clock-dependent glue (Model/PoolTime.lean); clock readings in milliseconds
   | "dcfg" :: rest =>
     match kvNat rest "epoch", kvNat rest "embargo", kvNat rest "agg", kvNat rest "prob", kv rest "always" with
@@ -269,10 +313,13 @@ def handle (st : St) (args : List String) (impl : String) : St × Verdict :=
     | some now =>
       let lo := st.tep.nextEpoch st.dcfg now 0 none
       let hi := st.tep.nextEpoch st.dcfg now 99 none
+      -- `next_epoch` also chooses the relay among the outbound connected peers (run `poolrelay`
+      -- keeps at most one candidate; no peers: none)
+      let rc := chooseRelay st.rpeers 0
       if lo.isStem == hi.isStem then
-        ({ st with tep := lo }, cmpModel s!"stem={if lo.isStem then 1 else 0}" impl)
+        ({ st with tep := lo, rcur := rc }, cmpModel s!"stem={if lo.isStem then 1 else 0}" impl)
       else
-        ({ st with tep := { lo with isStem := impl == "stem=1" } }, .ok)
+        ({ st with tep := { lo with isStem := impl == "stem=1" }, rcur := rc }, .ok)
     | none => (st, .unknown)
   | "tfluff_phase" :: rest =>
     match kvInt rest "now", (kv rest "ats").bind (parseClock st) with
